@@ -58,6 +58,16 @@ def _fn(name, params, ret, lines, extern=False):
     return body, head
 
 
+WIDE_CONSTS = [
+    ("i8", "-100", "%s as i32"), ("i8", "-128", "%s as i32"), ("i16", "-30000", "%s as i32"), ("u16", "65000", "%s as i32"),
+    ("u32", "4000000000", "(%s %% 1000) as i32"), ("u64", "18000000000000000000", "(%s %% 1000) as i32"),
+    ("i128", "170141183460469231731687303715884105000", "(%s %% 1000) as i32"),
+    ("u128", "340282366920938463463374607431768211000", "(%s %% 1000) as i32"),
+    ("i64", "-9000000000", "(%s %% 1000) as i32"), ("u32", "0xFFFF_FFF0", "(%s %% 1000) as i32"),
+    ("u8", "0b1010_1010", "%s as i32"), ("u8", "255", "%s as i32"), ("i32", "-2147483647", "(%s %% 1000)"),
+]
+
+
 def generate(rng, prefix="", n_funcs=None, with_main=True, rich=True):
     """Build one program. Names are `prefix`+K0, N0, T0, S0, W0, f0..."""
     P = Program()
@@ -106,6 +116,13 @@ def generate(rng, prefix="", n_funcs=None, with_main=True, rich=True):
         name = "%sL0" % px
         P.add(Item(name, "const", "const %s: i64 = %d;\n" % (name, rng.randint(3 * 10**9, 9 * 10**9))))
         xconsts.append((name, "(%s %% 1000) as i32" % name))
+    # constants of every width and sign, at the edges of their ranges: their
+    # values are re-evaluated in every module that imports them
+    for j in range(rng.choice([0, 0, 1, 1, 2])):
+        ty, val, term = rng.choice(WIDE_CONSTS)
+        name = "%sM%d" % (px, j)
+        P.add(Item(name, "const", "const %s: %s = %s;\n" % (name, ty, val)))
+        xconsts.append((name, term % name))
     tabs = {}
     for i in range(rng.randint(0, 2)):
         name = "%sT%d" % (px, i)
@@ -228,7 +245,7 @@ def generate(rng, prefix="", n_funcs=None, with_main=True, rich=True):
              "flag", "printv", "len", "guard", "eprint"]
     if not words:
         kinds.remove("word")
-    kinds += ["sizeof", "sizeof", "sizeof", "noop", "noop", "sizedptr", "grid", "shared_text"]
+    kinds += ["sizeof", "sizeof", "sizeof", "noop", "noop", "sizedptr", "grid", "shared_text", "wide"]
     if warrays:
         kinds.append("wordarr")
     if opaque:
@@ -387,6 +404,16 @@ def generate(rng, prefix="", n_funcs=None, with_main=True, rich=True):
                      "else", "{", "\tr = a + %d;" % rng.randint(100, 199), "}", "return: r"]
             body, head = _fn(name, "flag: bool, a: i32", "i32", lines)
             it = P.add(Item(name, "fn", body, head, ("flag",)))
+        elif kind == "wide":
+            # parameters and results of every width cross the module boundary
+            if rng.random() < 0.5:
+                lines = ["var r: i64 = a * %d + (b as i64) - (c as i64);" % rng.randint(2, 9), "return: r"]
+                body, head = _fn(name, "a: i64, b: u8, c: i8", "i64", lines, ext)
+                it = P.add(Item(name, "fn", body, head, ("wide", "i64")))
+            else:
+                lines = ["var r: i128 = a / %d + (s as i128);" % rng.randint(3, 9), "if up == true", "{", "\tr = r + 1;", "}", "return: r"]
+                body, head = _fn(name, "a: i128, s: i16, up: bool", "i128", lines)
+                it = P.add(Item(name, "fn", body, head, ("wide", "i128")))
         elif kind == "printv" and rich:
             lines = ['print!("%s v=", v, " ", %s, "\\n");' % (tag(), rng.choice(["true", "'x'", "7u8", "12usize"]))]
             body, head = _fn(name, "v: i32", None, lines, ext)
@@ -526,6 +553,13 @@ def generate(rng, prefix="", n_funcs=None, with_main=True, rich=True):
                 lines.append("acc = (acc + %s[0] + %s[1]) %% %d;" % (v, v, MOD))
             elif sig[0] == "flag":
                 lines.append("acc = (acc + %s(%s, %d)) %% %d;" % (f, rng.choice(["true", "false"]), rng.randint(0, 50), MOD))
+            elif sig[0] == "wide":
+                if sig[1] == "i64":
+                    call = "%s(%d, %d, %d)" % (f, rng.choice([-5000000000, 7000000000, -3]), rng.choice([0, 200, 255]), rng.choice([-128, -7, 127]))
+                else:
+                    call = "%s(%s, %d, %s)" % (f, rng.choice(["-170141183460469231731687303715884105000", "99999999999999999999999", "-12"]),
+                                               rng.choice([-32768, -9, 32767]), rng.choice(["true", "false"]))
+                lines.append("acc = (acc + ((%s %% 1000) as i32) + 2000) %% %d;" % (call, MOD))
             elif sig[0] == "print_v":
                 lines.append("%s(acc);" % f)
             elif sig[0] == "i_i":
